@@ -66,9 +66,10 @@ def fhex(x):
     return float(x).hex()
 
 
-def opt_line(name, typ, flags=0, dnum=0, dfp=0.0, dbool=0, dstr=None, dparsed=None, cbs='.', sub=None, simple=0):
-    return 'o %s %s %d %d %s %d %s %s %s %s %d' % (hx(name), typ, flags, dnum, fhex(dfp), dbool, hx(dstr), hx(dparsed),
+def opt_line(name, typ, flags=0, dnum=0, dfp=0.0, dbool=0, dstr=None, dparsed=None, cbs='.', sub=None, simple=0, comment=None):
+    line = 'o %s %s %d %d %s %d %s %s %s %s %d' % (hx(name), typ, flags, dnum, fhex(dfp), dbool, hx(dstr), hx(dparsed),
                                                   cbs or '.', '.' if sub is None else str(sub), simple)
+    return line + (' ' + hx(comment) if comment is not None else '')
 
 
 SAN_ENV = {
